@@ -663,3 +663,196 @@ Proof.
     + exact Hunp.
     + intros k Hk. rewrite HO3, HO2, Hk. destruct (_ && _)%bool; reflexivity.
 Qed.
+
+Lemma oid_step_spec_opt E f e sd r s s' :
+  IdxX s e sd -> oid_step (exec E f) e sd r s = Ok s' ->
+  IdxX s' e sd /\ (forall ro, r = Some ro -> al_get ro (oids s' sd) = None) /\
+  oid_of s' e sd = oid_of s e sd /\ path_of s' e sd = path_of s e sd /\
+  (oid_of s e sd = r -> r <> None -> unindexed s' e sd) /\
+  (unindexed s e sd -> unindexed s' e sd) /\
+  (forall k, al_get k (oids s sd) = None -> al_get k (oids s' sd) = None).
+Proof.
+  intros HX H. destruct r as [ro|].
+  - destruct (oid_step_spec _ _ _ _ _ _ _ HX H) as [A [B [C [D [F [G I]]]]]].
+    split; [exact A|]. split; [intros ro' Hr; injection Hr as <-; exact B|]. split; [exact C|]. split; [exact D|].
+    split; [intros Hr _; apply F; exact Hr|]. split; [exact G|exact I].
+  - injection H as <-. split; [exact HX|]. split; [intros ro Hr; discriminate|]. split; [reflexivity|]. split; [reflexivity|].
+    split; [intros _ Hn; exfalso; apply Hn; reflexivity|]. split; auto.
+Qed.
+
+Lemma ostr_eqb_eq a b : ostr_eqb a b = true <-> a = b.
+Proof.
+  destruct a as [a|], b as [b|]; simpl; split; intros H; try discriminate; try reflexivity.
+  - apply str_eqb_eq in H. congruence.
+  - injection H as ->. apply str_eqb_refl.
+Qed.
+
+Lemma oid_loop_spec E f e sd old v s s1 :
+  IdxJ s -> oid_of s e sd = old -> oid_loop (exec E f) e sd old v s = Ok s1 ->
+  IdxX s1 e sd /\ unindexed s1 e sd /\ oid_of s1 e sd = old /\ path_of s1 e sd = path_of s e sd /\
+  (forall o, v = Some o -> al_get o (oids s1 sd) = None).
+Proof.
+  intros HJ Hold H. pose proof (IdxJ_X _ e sd HJ) as HX.
+  assert (Hu0: old = None -> unindexed s e sd).
+  { intros ->. apply slots_unindexed; [apply HJ|exact Hold]. }
+  unfold oid_loop in H. destruct (ostr_eqb old v) eqn:Eq.
+  - apply ostr_eqb_eq in Eq. subst v.
+    destruct (oid_step_spec_opt _ _ _ _ _ _ _ HX H) as [A [B [C [D [F [G I]]]]]].
+    split; [exact A|]. split.
+    + destruct old as [ro|]; [apply F; [exact Hold|discriminate]|apply G; apply Hu0; reflexivity].
+    + split; [rewrite C; exact Hold|]. split; [exact D|exact B].
+  - bind_inv H. destruct x as [sw s0]. unfold pop_swap in E0.
+    destruct (tape s) as [|[b|l] r]; try discriminate. injection E0 as <- <-.
+    assert (HX0: IdxX (st_tape s r) e sd) by (apply (IdxX_view s); [reflexivity|exact HX]).
+    assert (Hold0: oid_of (st_tape s r) e sd = old) by exact Hold.
+    assert (Hu00: old = None -> unindexed (st_tape s r) e sd).
+    { intros Hn. destruct (Hu0 Hn) as [Ha Hb]. split; [intros o; destruct sd; apply Ha|intros p o; destruct sd; apply Hb]. }
+    assert (Hp0: path_of (st_tape s r) e sd = path_of s e sd) by reflexivity.
+    destruct b; bind_inv H.
+    + (* new id first *)
+      destruct (oid_step_spec_opt _ _ _ _ _ _ _ HX0 E0) as [A [B [C [D [F [G I]]]]]].
+      destruct (oid_step_spec_opt _ _ _ _ _ _ _ A H) as [A' [B' [C' [D' [F' [G' I']]]]]].
+      split; [exact A'|]. split.
+      * destruct old as [ro|]; [apply F'; [rewrite C; exact Hold0|discriminate]|apply G'; apply G; apply Hu00; reflexivity].
+      * split; [rewrite C', C; exact Hold0|]. split; [rewrite D', D; exact Hp0|].
+        intros o Hv. apply I'. apply B. exact Hv.
+    + destruct (oid_step_spec_opt _ _ _ _ _ _ _ HX0 E0) as [A [B [C [D [F [G I]]]]]].
+      destruct (oid_step_spec_opt _ _ _ _ _ _ _ A H) as [A' [B' [C' [D' [F' [G' I']]]]]].
+      split; [exact A'|]. split.
+      * apply G'. destruct old as [ro|]; [apply F; [exact Hold0|discriminate]|apply G; apply Hu00; reflexivity].
+      * split; [rewrite C', C; exact Hold0|]. split; [rewrite D', D; exact Hp0|].
+        intros o Hv. apply B'. exact Hv.
+Qed.
+
+Lemma oid_finish_some e sd o s1 s' : oid_finish true e sd (Some o) s1 = Ok s' ->
+  (forall sd' k, al_get k (oids s' sd') = if Bool.eqb sd' sd && str_eqb k o then Some e else al_get k (oids s1 sd')) /\
+  (forall sd' p k, slot_get s' sd' p k =
+     match path_of s1 e sd with
+     | Some pp => if tstr (Some pp) && Bool.eqb sd' sd && str_eqb p pp && str_eqb k o then Some e else slot_get s1 sd' p k
+     | None => slot_get s1 sd' p k
+     end) /\
+  (forall e' sd', oid_of s' e' sd' = if Nat.eqb e' e && Bool.eqb sd' sd then Some o else oid_of s1 e' sd') /\
+  (forall e' sd', path_of s' e' sd' = path_of s1 e' sd').
+Proof.
+  unfold oid_finish. intros H. destruct (get_ent s1 e) as [x|] eqn:E; cbn [bind] in H; [|discriminate].
+  cbv beta zeta iota in H. injection H as <-. apply get_ent_ok in E.
+  set (sa := st_oids (raw_side s1 e sd (fun y => w_oid y (Some o))) sd (al_set o e (oids s1 sd))).
+  set (sb := match s_path (gs x sd) with
+             | Some pp => if match pp with [] => false | _ :: _ => true end then slot_set sa sd pp o e else sa
+             | None => sa end).
+  set (sc := if (tchg (s_chg (gs x sd)) || tchg (s_chg (gs x (negb sd))))%bool then cs_add sb e else sb).
+  assert (Hpx: path_of s1 e sd = s_path (gs x sd)) by (unfold path_of; rewrite E; reflexivity).
+  assert (Hvc: iview (dirty_add sc e) = iview sb) by (unfold sc; destruct (_ || _)%bool; reflexivity).
+  apply iview_eq in Hvc as [Hec [Hoc Hpc]].
+  assert (Hentsb: ents sb = ents (raw_side s1 e sd (fun y => w_oid y (Some o)))).
+  { unfold sb. destruct (s_path (gs x sd)) as [pp|]; [destruct (match pp with [] => false | _ :: _ => true end); [rewrite ents_slot_set|]|]; unfold sa; apply ents_st_oids. }
+  assert (Hoidb: forall e' sd', oid_of sb e' sd' = if Nat.eqb e' e && Bool.eqb sd' sd then Some o else oid_of s1 e' sd').
+  { intros e' sd'. unfold oid_of at 1. rewrite Hentsb. fold (oid_of (raw_side s1 e sd (fun y => w_oid y (Some o))) e' sd').
+    rewrite oid_of_raw_side, E. reflexivity. }
+  assert (Hpathb: forall e' sd', path_of sb e' sd' = path_of s1 e' sd').
+  { intros e' sd'. unfold path_of at 1. rewrite Hentsb. fold (path_of (raw_side s1 e sd (fun y => w_oid y (Some o))) e' sd').
+    rewrite path_of_raw_side, E. simpl.
+    destruct (Nat.eqb_spec e' e) as [->|]; simpl; [|reflexivity].
+    destruct (Bool.eqb_spec sd' sd) as [->|]; [|reflexivity]. symmetry. exact Hpx. }
+  assert (HOb: forall sd' k, al_get k (oids sb sd') = if Bool.eqb sd' sd && str_eqb k o then Some e else al_get k (oids s1 sd')).
+  { intros sd' k. assert (Hx: oids sb sd' = oids sa sd').
+    { unfold sb. destruct (s_path (gs x sd)) as [pp|]; [destruct (match pp with [] => false | _ :: _ => true end); [apply oids_slot_set|]|]; reflexivity. }
+    rewrite Hx. unfold sa. rewrite oids_st_oids. destruct (Bool.eqb sd' sd) eqn:Es; simpl.
+    - apply Bool.eqb_prop in Es. subst sd'. rewrite al_get_set. reflexivity.
+    - rewrite oids_raw_side. reflexivity. }
+  assert (HPb: forall sd' p k, slot_get sb sd' p k =
+     match path_of s1 e sd with
+     | Some pp => if tstr (Some pp) && Bool.eqb sd' sd && str_eqb p pp && str_eqb k o then Some e else slot_get s1 sd' p k
+     | None => slot_get s1 sd' p k
+     end).
+  { intros sd' p k. rewrite Hpx. unfold sb. destruct (s_path (gs x sd)) as [pp|].
+    - destruct pp as [|c pp']; cbn [tstr andb].
+      + unfold sa. rewrite slot_get_st_oids, slot_get_raw_side. reflexivity.
+      + rewrite slot_get_slot_set. unfold sa. rewrite slot_get_st_oids, slot_get_raw_side. reflexivity.
+    - unfold sa. rewrite slot_get_st_oids, slot_get_raw_side. reflexivity. }
+  assert (Hn: exists x', nth_error (ents (dirty_add sc e)) e = Some x' /\ s_path (gs x' sd) = s_path (gs x sd)).
+  { assert (Hd: ents (dirty_add sc e) = ents sb) by (unfold sc; destruct (_ || _)%bool; reflexivity).
+    rewrite Hd, Hentsb. unfold raw_side. rewrite E. simpl. rewrite nth_list_upd, Nat.eqb_refl, E.
+    eexists. split; [reflexivity|]. rewrite gs_ss, bool_eqb_refl. reflexivity. }
+  destruct Hn as [x' [Hn Hpx']].
+  split; [|split; [|split]].
+  - intros sd' k. rewrite oids_raw_side, Hoc. apply HOb.
+  - intros sd' p k. rewrite slot_get_raw_side. rewrite (slot_get_paths _ sb); [apply HPb|apply Hpc].
+  - intros e' sd'. rewrite oid_of_raw_side, Hn. simpl.
+    destruct (Nat.eqb e' e && Bool.eqb sd' sd)%bool eqn:Ec; [reflexivity|].
+    rewrite (proj1 (Hec e' sd')), Hoidb, Ec. reflexivity.
+  - intros e' sd'. rewrite path_of_raw_side, Hn. simpl.
+    destruct (Nat.eqb_spec e' e) as [->|]; simpl; [|rewrite (proj2 (Hec e' sd')); apply Hpathb].
+    destruct (Bool.eqb_spec sd' sd) as [->|]; [|rewrite (proj2 (Hec e sd')); apply Hpathb].
+    rewrite Hpx', <- Hpx. reflexivity.
+Qed.
+
+(* _change_oid through the intercepted setter keeps the index invariant *)
+Lemma exec_oid_pres E f e sd v s s' :
+  IdxJ s -> exec E (S f) (COid true e sd v) s = Ok s' -> IdxJ s'.
+Proof.
+  intros HJ H. rewrite exec_oid_eq in H. bind_inv H. bind_inv H.
+  apply get_ent_ok in E0.
+  assert (Hold: oid_of s e sd = s_oid (gs x sd)) by (unfold oid_of; rewrite E0; reflexivity).
+  destruct (oid_loop_spec _ _ _ _ _ _ _ _ HJ Hold E1) as [HX [Hun [Ho1 [Hp1 Hv]]]].
+  destruct HX as [H1 [[Hso Hsp] _]]. destruct Hun as [Hu1 Hu2].
+  destruct v as [o|].
+  - apply oid_finish_some in H as [HO [HP [Hoid Hpath]]].
+    specialize (Hv o eq_refl).
+    split; [|split].
+    + intros e' sd' o' Hoe. rewrite Hoid in Hoe.
+      destruct (Nat.eqb_spec e' e) as [->|Hne]; simpl in Hoe.
+      * destruct (Bool.eqb_spec sd' sd) as [->|Hns].
+        -- injection Hoe as <-. split.
+           ++ rewrite HO, bool_eqb_refl, str_eqb_refl. reflexivity.
+           ++ intros p Hpp Hpn. rewrite Hpath in Hpp. rewrite HP, Hpp.
+              assert (Ht: tstr (Some p) = true) by (destruct p; [contradiction|reflexivity]).
+              rewrite Ht, bool_eqb_refl, !str_eqb_refl. reflexivity.
+        -- destruct (H1 e sd' (or_intror Hns) _ Hoe) as [Ha Hb]. split.
+           ++ rewrite HO. destruct (Bool.eqb_spec sd' sd); [contradiction|exact Ha].
+           ++ intros p Hpp Hpn. rewrite Hpath in Hpp. rewrite HP.
+              destruct (path_of x0 e sd) as [pp|]; [|apply Hb; assumption].
+              destruct (Bool.eqb_spec sd' sd); [contradiction|]. rewrite andb_false_r. simpl. apply Hb; assumption.
+      * destruct (H1 e' sd' (or_introl Hne) _ Hoe) as [Ha Hb].
+        assert (Hk: ~ (sd' = sd /\ o' = o)) by (intros [-> ->]; congruence).
+        split.
+        -- rewrite HO. destruct (Bool.eqb_spec sd' sd) as [->|]; simpl; [|exact Ha].
+           destruct (str_eqb_spec o' o) as [->|]; [exfalso; apply Hk; split; reflexivity|exact Ha].
+        -- intros p Hpp Hpn. rewrite Hpath in Hpp. rewrite HP.
+           destruct (path_of x0 e sd) as [pp|]; [|apply Hb; assumption].
+           destruct (Bool.eqb_spec sd' sd) as [->|]; [|rewrite andb_false_r; simpl; apply Hb; assumption].
+           destruct (str_eqb_spec o' o) as [->|]; [exfalso; apply Hk; split; reflexivity|].
+           rewrite andb_false_r. apply Hb; assumption.
+    + intros sd' k z Hz. rewrite HO in Hz. rewrite Hoid.
+      destruct (Bool.eqb_spec sd' sd) as [->|Hns]; simpl in Hz.
+      * destruct (str_eqb_spec k o) as [->|Hnk].
+        -- injection Hz as <-. rewrite Nat.eqb_refl. reflexivity.
+        -- destruct (Nat.eqb_spec z e) as [->|]; [exfalso; apply (Hu1 _ Hz)|]. simpl. apply Hso. exact Hz.
+      * rewrite andb_false_r. apply Hso. exact Hz.
+    + intros sd' p k z Hz. rewrite HP in Hz. rewrite Hoid, Hpath.
+      assert (Hold': forall z, slot_get x0 sd' p k = Some z ->
+                (if Nat.eqb z e && Bool.eqb sd' sd then Some o else oid_of x0 z sd') = Some k /\ path_of x0 z sd' = Some p /\ p <> []).
+      { intros z0 Hz0. destruct (Nat.eqb_spec z0 e) as [->|]; simpl; [|apply Hsp; exact Hz0].
+        destruct (Bool.eqb_spec sd' sd) as [->|]; [exfalso; apply (Hu2 _ _ Hz0)|apply Hsp; exact Hz0]. }
+      destruct (path_of x0 e sd) as [pp|] eqn:Epp; [|apply Hold'; exact Hz].
+      destruct (tstr (Some pp) && Bool.eqb sd' sd && str_eqb p pp && str_eqb k o)%bool eqn:Ec; [|apply Hold'; exact Hz].
+      injection Hz as <-. apply andb_prop in Ec as [Ec Ek]. apply andb_prop in Ec as [Ec Ep]. apply andb_prop in Ec as [Et Es].
+      apply Bool.eqb_prop in Es. subst sd'. apply str_eqb_eq in Ep, Ek. subst p k.
+      rewrite Nat.eqb_refl, bool_eqb_refl. simpl. split; [reflexivity|]. split; [exact Epp|].
+      destruct pp; [discriminate|discriminate].
+  - apply oid_finish_none in H as [HO [HP [Hoid Hpath]]].
+    split; [|split].
+    + intros e' sd' o' Hoe. rewrite Hoid in Hoe.
+      destruct (Nat.eqb e' e && Bool.eqb sd' sd)%bool eqn:Ec; [discriminate|].
+      assert (Hn: e' <> e \/ sd' <> sd).
+      { destruct (Nat.eqb_spec e' e) as [->|]; [|left; assumption]. destruct (Bool.eqb_spec sd' sd) as [->|]; [discriminate|right; assumption]. }
+      destruct (H1 _ _ Hn _ Hoe) as [Ha Hb]. split.
+      * rewrite HO. exact Ha.
+      * intros p Hpp Hpn. rewrite Hpath in Hpp. rewrite HP. apply Hb; assumption.
+    + intros sd' k z Hz. rewrite HO in Hz. rewrite Hoid.
+      destruct (Nat.eqb_spec z e) as [->|]; simpl; [|apply Hso; exact Hz].
+      destruct (Bool.eqb_spec sd' sd) as [->|]; [exfalso; apply (Hu1 _ Hz)|apply Hso; exact Hz].
+    + intros sd' p k z Hz. rewrite HP in Hz. rewrite Hoid, Hpath.
+      destruct (Nat.eqb_spec z e) as [->|]; simpl; [|apply Hsp; exact Hz].
+      destruct (Bool.eqb_spec sd' sd) as [->|]; [exfalso; apply (Hu2 _ _ Hz)|apply Hsp; exact Hz].
+Qed.
